@@ -1253,9 +1253,10 @@ const FC_SUITES: [SuiteId; 6] = [
     SuiteId { kem: Kem::P384, kdf: Kdf::Sha384, aead: Aead::Aes256Gcm },
     SuiteId { kem: Kem::P521, kdf: Kdf::Sha512, aead: Aead::ChaCha20Poly1305 },
 ];
-const FC_KINDS: [&str; 10] = [
+const FC_KINDS: [&str; 13] = [
     "derive_keypair", "gen_keypair", "sk_to_pk", "setup_sender(Base)+seal+export", "setup_receiver(Base)+open+export", "setup_sender(AuthPsk)+seal+export",
     "setup_receiver(AuthPsk)+open+export", "single_shot_seal(Psk)", "single_shot_open(Auth)", "decap",
+    "FAILING setup_receiver(Auth: bad sender key / tampered single-shot open)", "FAILING setup_sender(bad recipient key) / key deserialization", "FAILING open (tampered), then the genuine message",
 ];
 
 fn fc_name(o: usize) -> String {
@@ -1336,10 +1337,71 @@ fn fc_run(o: usize, seed: u64) -> Result<(), String> {
                 cmp("plaintext", ops.single_shot_open(&m, &k.sk_r, &enc, &info, &ct, &aad), &pt)
             }
         }
-        _ => {
+        9 => {
             let (sk_e, _, _) = suite.kem.derive_keypair(&k.ikm_e);
             let (ss, enc) = suite.kem.encap(&k.pk_r, None, &sk_e).ok_or("R1 encap failed")?;
             cmp("shared secret", kem.decap(&k.sk_r, None, &enc), &ss)
+        }
+        // operations that must FAIL - an error path may leave something behind for the next call
+        10 => {
+            let m = mode_spec(Mode::Auth, &k, b"", b"");
+            let (enc, mut rs) = r1_setup_s(suite, &m, &k.pk_r, &info, &k.ikm_e).ok_or("R1 setup failed")?;
+            if suite.kem == Kem::X25519 {
+                let m_bad = ModeSpec { pk_s: vec![0u8; 32], ..m.clone() };
+                match ops.setup_receiver(&m_bad, &k.sk_r, &enc, &info) {
+                    Obs::Err(hpke::HpkeError::DecapError) => Ok(()),
+                    o => Err(format!("setup_receiver(Auth, all-zero sender key): {} want Err(DecapError)", o.map(|_| ()).class())),
+                }
+            } else if can_seal {
+                let mut ct = rs.seal(&aad, &pt).map_err(|_| "R1 seal failed")?;
+                ct[0] ^= 1;
+                match ops.single_shot_open(&m, &k.sk_r, &enc, &info, &ct, &aad) {
+                    Obs::Err(hpke::HpkeError::OpenError) => Ok(()),
+                    o => Err(format!("single_shot_open(tampered): {} want Err(OpenError)", o.map(|_| ()).class())),
+                }
+            } else {
+                Ok(())
+            }
+        }
+        11 => {
+            if suite.kem == Kem::X25519 {
+                let m = mode_spec(Mode::Base, &k, b"", b"");
+                match ops.setup_sender(&m, &[0u8; 32], &info, &mut ScriptRng::new(&k.ikm_e)) {
+                    Obs::Err(hpke::HpkeError::EncapError) => Ok(()),
+                    o => Err(format!("setup_sender(all-zero recipient key): {} want Err(EncapError)", o.map(|_| ()).class())),
+                }
+            } else {
+                let mut off = k.pk_r.clone();
+                let l = off.len();
+                off[l - 1] ^= 1;
+                match kem.reserialize(hpke_mc::suites::KeyKind::Public, &off) {
+                    Obs::Err(hpke::HpkeError::ValidationError) | Obs::Pre(hpke::HpkeError::ValidationError) => Ok(()),
+                    o => Err(format!("PublicKey::from_bytes(off-curve point): {} want Err(ValidationError)", o.map(|_| ()).class())),
+                }
+            }
+        }
+        _ => {
+            if !can_seal {
+                return Ok(());
+            }
+            let m = mode_spec(Mode::Base, &k, b"", b"");
+            let (enc, mut rs) = r1_setup_s(suite, &m, &k.pk_r, &info, &k.ikm_e).ok_or("R1 setup failed")?;
+            let ct = rs.seal(&aad, &pt).map_err(|_| "R1 seal failed")?;
+            match ops.setup_receiver(&m, &k.sk_r, &enc, &info) {
+                Obs::Ok(mut r) => {
+                    let mut bad = ct.clone();
+                    let l = bad.len();
+                    bad[l - 1] ^= 0x40;
+                    if r.open(&bad, &aad) != Obs::Err(hpke::HpkeError::OpenError) {
+                        return Err("open(tampered) did not fail with OpenError".into());
+                    }
+                    if r.open(&ct[..7], &aad) != Obs::Err(hpke::HpkeError::OpenError) {
+                        return Err("open(7 bytes) did not fail with OpenError".into());
+                    }
+                    cmp("plaintext after two rejected deliveries", r.open(&ct, &aad), &pt)
+                }
+                o => Err(format!("setup_receiver: {}", o.map(|_| ()).class())),
+            }
         }
     }
 }
@@ -1373,7 +1435,7 @@ impl Part for FirstCalls {
         "E3f-first-calls-in-fresh-processes".into()
     }
     fn rule(&self) -> String {
-        "every sequence of 1 or 2 operations (thorough: also 3 over a sub-alphabet) from {derive_keypair, gen_keypair, sk_to_pk, setup_sender+seal+export (Base, AuthPsk), setup_receiver+open+export (Base, AuthPsk), single_shot_seal (Psk), single_shot_open (Auth), decap} x 6 suites (two per X25519 and P-256 so that suites sharing a KEM follow each other) is executed in its OWN freshly started process, so that each operation is once the very first library call of a process and once the successor of every other operation; all inputs come from R1 (no library call is needed to prepare them) and every output is compared with R1".into()
+        "every sequence of 1 or 2 operations (thorough: also 3 over a sub-alphabet) from {derive_keypair, gen_keypair, sk_to_pk, setup_sender+seal+export (Base, AuthPsk), setup_receiver+open+export (Base, AuthPsk), single_shot_seal (Psk), single_shot_open (Auth), decap, and three operations that must FAIL: receiver setup with a bad sender key / tampered single-shot open, sender setup with a bad recipient key / off-curve key deserialization, rejected deliveries followed by the genuine one} x 6 suites (two per X25519 and P-256 so that suites sharing a KEM follow each other) is executed in its OWN freshly started process, so that each operation is once the very first library call of a process and once the successor of every other operation; all inputs come from R1 (no library call is needed to prepare them) and every output is compared with R1".into()
     }
     fn bound(&self, cfg: &Cfg) -> String {
         let n = FC_SUITES.len() * FC_KINDS.len();
@@ -1925,7 +1987,7 @@ fn main() {
         eprintln!("  part {}: cases {} transitions {} violating {} ({:.1}s)", r.name, r.run, r.transitions, r.violations.len(), r.wall_s);
         reports.push(r);
     }
-    let fc = FirstCalls { len3_suites: if t { FC_SUITES.len() } else { 3 } };
+    let fc = FirstCalls { len3_suites: 3 };
     if want(&fc.name()) {
         let r = run_part(&fc, &cfg);
         eprintln!("  part {}: cases {} transitions {} violating {} ({:.1}s)", r.name, r.run, r.transitions, r.violations.len(), r.wall_s);
